@@ -41,7 +41,7 @@ def gen_c01(r, big=False):
     nm = r.randint(1, 2)
     lines = []
     for i in range(nm):
-        kind = r.choice(["mutex", "mutex", "rmutex"])
+        kind = r.choice(["mutex", "mutex", "rmutex", "cmutex"])
         lines.append("obj %s m%d %d" % (kind, i, r.choice([0, 0, 1, 2])))
     n = r.randint(2, 6 if big else 4)
     names = ["T%d" % i for i in range(1, n + 1)]
@@ -55,8 +55,10 @@ def gen_c01(r, big=False):
                 ops.append("lock %s %s" % (m, r.choice(TOS)))
             elif c < 0.45:
                 ops.append("trylock %s" % m)
-            elif c < 0.7:
+            elif c < 0.6:
                 ops.append("unlock %s" % m)
+            elif c < 0.7:
+                ops += ["unlock %s" % m, "lock %s %s" % (m, r.choice(TOS))]     # release and barge back in
             elif c < 0.8:
                 ops.append("sleep %s" % r.choice(["0", "50", "100", "1000"]))
             elif c < 0.88:
@@ -101,6 +103,31 @@ def gen_c02(r, big=False):
     lines += threads_lines(scripts)
     for _ in range(r.randint(0, 3)):
         lines.append("at %d intr %s %d" % (r.choice([0, 50, 99, 100, 101, 1000, 1001]), r.choice(names), r.choice([4, 11])))
+    return lines
+
+
+def gen_c02_barge(r, big=False):
+    """waiters with different demands park first (creation order = arrival order); then one thread signals and
+    takes tokens on the fast path before the woken waiters run; timeouts / interrupts hit parked waiters"""
+    lines = ["obj sem s0 %d %d" % (r.choice([0, 0, 1]), 0 if r.random() < 0.4 else 1)]
+    nw = r.randint(2, 4)
+    names = []
+    for i in range(nw):
+        names.append("W%d" % i)
+        lines.append("thread W%d %s s0 %d %s" % (i, r.choice(["wait", "wait", "waiti"]), r.choice([1, 1, 2, 3, 5]),
+                                                 r.choice(["inf", "inf", "2000000", "1000", "20"])))
+    ops = []
+    for _ in range(r.randint(1, 5)):
+        c = r.random()
+        if c < 0.5:
+            ops.append("signal s0 %d" % r.choice([1, 2, 3, 3, 4]))
+        elif c < 0.8:
+            ops.append("wait s0 %d %s" % (r.choice([1, 2, 2, 3]), r.choice(["0", "inf", "100"])))
+        elif c < 0.9:
+            ops.append("intr %s %d" % (r.choice(names), r.choice([4, 11])))
+        else:
+            ops.append("sleep %s" % r.choice(["10", "30", "1500"]))
+    lines.append("thread S %s" % " ; ".join(ops))
     return lines
 
 
